@@ -285,7 +285,9 @@ def run(ctx):
             return
     n_tie = part_expr_tie(ctx)
     from vlib import c01v_part
-    n_tie += c01v_part.part_vexpr(ctx)  # Venom front end: expression lowering model, O-tie, partial theorem
+    n_tie += c01v_part.part_vexpr(ctx)  # Venom front end: expression lowering model, O-tie, theorem vexpr_compile_correct
+    from vlib import c01v_stmt
+    n_tie += c01v_stmt.part_vstmt(ctx)  # ... and statement lowering (vstmt_compile_correct)
     cfgs = configs(ctx.tier)
     n = 24 if ctx.tier == "quick" else 240
     items, stats = differential(ctx, n, cfgs)
@@ -315,5 +317,6 @@ def prebuild(ctx):
     ctx.coq_build_cached(COQ_FILES)
     c03 = ["C03/LIR.v", "C03/ArithSpec.v", "C03/WordArith.v", "C03/TypeLemmas.v", "C03/ArithModel.v", "C03/LegacyExact.v", "C03/TieBase.v"]
     ctx.coq_build_cached(["C01/ExprCompile.v", "C01/ExprCompileProofs.v", "C01/ExprBridge.v"], deps=c03 + ["C01/VyCore.v"])
-    from vlib import c01v_part
+    from vlib import c01v_part, c01v_stmt
     c01v_part.prebuild(ctx)
+    c01v_stmt.prebuild(ctx)
